@@ -1,6 +1,7 @@
 import Driver.Util
 import Driver.Rt
 import StoneVerif.Model.Rt.Compat
+import StoneVerif.Model.Rt.SpecC06
 /-!
 Protocol handler of the `decl.compat.*` ops (C07).  Stateless: every request carries both environments, the class
 correspondence and the external-call tables, plus a list of cases evaluated against them.
@@ -104,7 +105,7 @@ def handle (op : String) (j : Json) : Except String Json := do
       | .ok r => r
       | .error e => Json.mkObj [("protocol_error", e)]
     pure (Json.mkObj [("ok", true), ("envWF_A", envWF A), ("envWF_B", envWF B), ("rhoWF", ρ.wf),
-      ("envWFU_A", envWFU A), ("envWFU_B", envWFU B),
+      ("envWFU_A", envWFU A), ("envWFU_B", envWFU B), ("envWFX_A", envWFX A), ("fieldFlagsWF_A", fieldFlagsWF A),
       ("compatEnv", compatEnv ρ A B),
       ("badPairs", Json.arr ((ρ.filter fun p => !pairOk ρ A B p).map fun p => Json.arr #[Json.str p.1, Json.str p.2]).toArray),
       ("results", Json.arr out)])
